@@ -36,6 +36,7 @@ def generate(chk, cfgs, num, depth, tagprefix, sizes=None, kinds=("cut", "cut", 
     """Behaviours of ServerMux_Gen -> scenarios."""
     import concurrent.futures
     scenarios, infos = [], []
+    zeroff = [0]
     with concurrent.futures.ThreadPoolExecutor(max_workers=len(cfgs)) as ex:
         futs = [ex.submit(corerig.simulate, chk, SPECDIR, "ServerMux_Gen", cfg, num, depth, chk.seed * 1000 + ci) for ci, cfg in enumerate(cfgs)]
         allbehs = [f.result() for f in futs]
@@ -45,6 +46,12 @@ def generate(chk, cfgs, num, depth, tagprefix, sizes=None, kinds=("cut", "cut", 
             rng = random.Random("%d/%s/%d" % (chk.seed, cfg, bi))
             name = "%s-%s-%d" % (tagprefix, cfg.replace(".cfg", ""), bi)
             sc, info = corerig.project_servermux(beh, rng, name=name, sizes=sizes, kinds=kinds)
+            if sc.get("id_shape") == "zeroff":
+                # the all-zero / all-0xff ClientIDs can be used once per server process (the server keeps the
+                # KCP session and the outgoing queue of a ClientID long after its client is gone)
+                zeroff[0] += 1
+                if zeroff[0] > 1:
+                    sc["id_shape"] = rng.choice(["lastbyte", "firstbyte", "prefix4"])
             sc["origin"] = {"module": "ServerMux_Gen", "config": cfg, "seed": chk.seed * 1000 + ci,
                             "steps": [[a, b] for a, b in beh if a.startswith(("G_", "S_Cut"))]}
             scenarios.append(sc)
@@ -77,15 +84,16 @@ def run(chk, args):
     chk.note("%d behaviours of ServerMux_Gen -> scenarios (%d carriers, %d cuts, %d gaps, classes %s)" % (
         len(scenarios), sum(i["carriers"] for i in infos), sum(i["cuts"] for i in infos), sum(i["gaps"] for i in infos), sorted(classes)))
     chk.cov["gaps_shorter_than_retention"] = sum(i["gaps"] for i in infos)
-    if not q:
-        # the one real gap that is LONGER than the retention: the outgoing queue of the session expires
-        # (its packets are lost), the session itself must survive and stay one accepted connection
-        scenarios.append({"name": "c05-gap61", "seed": chk.seed, "bound_ms": 260000, "sessions": [
-            {"up": 300000, "down": 300000, "carriers": [
-                {"label": "", "ip": "192.0.2.7", "pres": "id", "fault": {"kind": "cut", "dir": "down", "cls": "body", "nth": 20}},
-                {"label": "", "ip": "2001:db8::5", "pres": "id", "delay_ms": 61000}]},
-            {"up": 100000, "down": 100000, "carriers": [{"label": "", "ip": "198.51.100.200", "pres": "id"}]}],
-            "origin": {"module": "ServerMux", "steps": [["S_Cut", [1, "downmid"]], ["S_Detach", [1]], ["S_Expire", ["A"]], ["S_Open", [2]]]}})
+    shapes = {}
+    for sc in scenarios:
+        if sc.get("id_shape"):
+            key = sc["id_shape"] + ("+conv" if sc.get("conv_equal") else "")
+            shapes[key] = shapes.get(key, 0) + 1
+    chk.cov["clientid_shapes"] = shapes
+    chk.note("ClientID byte classes of the two-session scenarios: %s" % shapes)
+    base = {k.split("+")[0] for k in shapes}
+    if not {"lastbyte", "firstbyte", "prefix4", "zeroff"} <= base or not any(k.endswith("+conv") and not k.startswith("random") for k in shapes):
+        chk.fail("vacuous: ClientID classes generated: %s" % sorted(shapes))
     if classes != CLASSES:
         chk.fail("vacuous: cut classes %s never generated" % sorted(CLASSES - classes))
     # 3. the rig
